@@ -170,3 +170,11 @@ func (t *Tape) Blocks() []Block {
 func (t *Tape) String() string {
 	return fmt.Sprintf("tape(pos=%d len=%d replay=%v)", t.pos, len(t.vals), t.replay)
 }
+
+// Preload fixes the first draws of a seeded tape (values are reduced modulo n when drawn).
+func (t *Tape) Preload(v []uint64) {
+	if t.pos != 0 || len(t.vals) != 0 {
+		panic("tape: Preload on a used tape")
+	}
+	t.vals = append(t.vals, v...)
+}
